@@ -15,7 +15,7 @@ RULE = (
     "the initialisation, or refused; distinct = case hash"
 )
 ASSUMPTIONS = [
-    "the converse (refusal although some non-negative assignment exists) is not asserted: the minimum-norm solution may be refused legitimately; such cases are only counted",
+    "refusal is a violation only when the databook was derived from a non-negative state AND determines it uniquely (full column rank); for under-determined systems the minimum-norm solution may be refused legitimately and such cases are only counted",
     "pre-flush state read from Model(...) before Model.process()",
 ]
 BUDGET = {"quick": 4000, "thorough": 150000}
@@ -164,7 +164,32 @@ def check(case):
 
     try:
         m = at.Model(P.settings, P.framework, ps)
-    except at.BadInitialization:
+    except at.BadInitialization as e:
+        # The databook values of the 'consistent' and 'yfactor' classes are derived from a non-negative state x0, so an assignment
+        # reproducing them exists.  If the initialisation quantities determine the state uniquely (full column rank) that assignment is
+        # the only candidate and refusing it means the run was NOT started although the databook can be matched.
+        if case["klass"] in ("consistent", "yfactor"):
+            body = [c["name"] for c in spec["comps"] if c["kind"] in ("ord", "junc")]
+            rows = []
+            for c in spec["comps"]:
+                if c["kind"] in ("ord", "junc") and (c.get("db") or not c.get("free")):
+                    rows.append([1.0 if b_ == c["name"] else 0.0 for b_ in body])
+            for x in spec["characs"]:
+                if x.get("db"):
+                    mem = members(x["name"])
+                    rows.append([1.0 if b_ in mem else 0.0 for b_ in body])
+            big = 0.0
+            for q_, bypop in data["q"].items():
+                if q_ in body or q_ in cmap:
+                    for e_ in bypop.values():
+                        big = max(big, abs(datainterp.series_value(e_, start)))
+            if big > 1e7:
+                # the 1e-6 tolerance is absolute: with stocks above ~1e7 the rounding error of the linear solve itself approaches it,
+                # so a refusal there says nothing about the rule
+                labels.append("refused-huge-magnitudes")
+            elif rows and np.linalg.matrix_rank(np.array(rows)) == len(body):
+                raise Violation(ID, "refused-although-consistent-and-determined", "the databook was derived from a non-negative state and determines it uniquely, but the run was refused: %s" % str(e)[:300])
+            labels.append("refused-underdetermined-consistent")
         return {"nontrivial": True, "labels": labels + ["refused"]}
     except Exception as e:
         where = simcase.atomica_frame(e)
